@@ -93,6 +93,32 @@ func init() {
 		// unique.Make / Handle.Value are generic: matched by prefix below.
 
 		"maps.clone":            inMapsClone,
+		// logging: empty bodies
+		"log/slog.Default":                    inSlogDefault,
+		"(*log/slog.Logger).With":             func(m *Machine, c *frame, fn *ssa.Function, a []value) value { return a[0] },
+		"(*log/slog.Logger).WithGroup":        func(m *Machine, c *frame, fn *ssa.Function, a []value) value { return a[0] },
+		"(*log/slog.Logger).Info":             inNop,
+		"(*log/slog.Logger).InfoContext":      inNop,
+		"(*log/slog.Logger).Error":            inNop,
+		"(*log/slog.Logger).ErrorContext":     inNop,
+		"(*log/slog.Logger).Warn":             inNop,
+		"(*log/slog.Logger).WarnContext":      inNop,
+		"(*log/slog.Logger).Debug":            inNop,
+		"(*log/slog.Logger).DebugContext":     inNop,
+		"(*log/slog.Logger).Log":              inNop,
+		"(*log/slog.Logger).LogAttrs":         inNop,
+		"(*log/slog.Logger).Enabled":          func(m *Machine, c *frame, fn *ssa.Function, a []value) value { return m.tt.False },
+		"github.com/AdguardTeam/golibs/logutil/slogutil.PrintRecovered": inNop,
+		"github.com/AdguardTeam/golibs/log.Debug": inNop,
+		"github.com/AdguardTeam/golibs/log.Info":  inNop,
+		"github.com/AdguardTeam/golibs/log.Error": inNop,
+		"github.com/AdguardTeam/golibs/log.Printf": inNop,
+		// context.WithTimeout/WithCancel: the real ones start runtime timers
+		// and goroutines; the stub returns the parent and a no-op cancel
+		"context.WithTimeout":  inCtxWithCancel,
+		"context.WithDeadline": inCtxWithCancel,
+		"context.WithCancel":   inCtxWithCancel,
+		"context.Background":   nil,
 		"slices.overlaps":       inSlicesOverlaps,
 		"unique.Make":           inUniqueMake,
 		"(unique.Handle).Value": inUniqueValue,
@@ -651,4 +677,23 @@ func inSlicesOverlaps(m *Machine, c *frame, fn *ssa.Function, a []value) value {
 		}
 	}
 	return m.tt.False
+}
+
+func inSlogDefault(m *Machine, c *frame, fn *ssa.Function, a []value) value {
+	t := m.namedType("log/slog", "Logger")
+	if t == nil {
+		m.unsupported("log/slog.Logger not loaded")
+	}
+	return m.alloc(t, "slog.Logger")
+}
+
+// nativeFunc is a function value implemented by the engine.
+type nativeFunc struct {
+	name string
+	f    func(m *Machine, caller *frame, args []value) value
+}
+
+func inCtxWithCancel(m *Machine, c *frame, fn *ssa.Function, a []value) value {
+	cancel := &nativeFunc{name: "context cancel (stub)", f: func(m *Machine, caller *frame, args []value) value { return nil }}
+	return Tuple{a[0], cancel}
 }
